@@ -1,4 +1,4 @@
-package verifharness
+package basefee
 
 // Driver `basefee` (C09, C20): feemarketkeeper.CalculateBaseFee on generated
 // (base fee, block gas used, consensus max_gas, min gas price) and whole EndBlock runs.
@@ -16,6 +16,8 @@ import (
 	"github.com/stretchr/testify/require"
 
 	feemarkettypes "github.com/EscanBE/evermint/v12/x/feemarket/types"
+
+	. "verifharness/hx"
 )
 
 type basefeeCase struct {
@@ -27,10 +29,10 @@ type basefeeCase struct {
 }
 
 func TestDriverBasefee(t *testing.T) {
-	dir := outDir(t)
-	seed := envSeed()
-	n := envInt("VERIF_N", 1500)
-	suite := newSuite(t)
+	dir := OutDir(t)
+	seed := EnvSeed()
+	n := EnvInt("VERIF_N", 1500)
+	suite := NewSuite(t)
 	rng := NewRng(seed)
 	side := NewSidecar("basefee", seed,
 		"case = (base fee, block gas used, consensus max_gas, min gas price); boundary-heavy generator (target-1/target/target+1, max_gas in {-1,0,1,2,3,...}, base fee in {0,1,7,8,2^64,2^255,2^256-1,random}); "+
@@ -38,10 +40,10 @@ func TestDriverBasefee(t *testing.T) {
 	cases := NewCases(dir, "From Evm Require Import BaseFee CorrBaseFee.", "bf_mismatches")
 
 	k := suite.ChainApp.FeeMarketKeeper()
-	max256 := bsub(pow2(256), 1)
-	e18 := new(big.Int).Exp(bi(10), bi(18), nil)
-	bCands := []*big.Int{bi(0), bi(1), bi(7), bi(8), bi(9), bi(1_000_000_000), pow2(64), bsub(pow2(64), 1), pow2(255), max256,
-		bsub(max256, 1), new(big.Int).Div(new(big.Int).Mul(max256, bi(4)), bi(5)), new(big.Int).Div(new(big.Int).Mul(max256, bi(8)), bi(9))}
+	max256 := Bsub(Pow2(256), 1)
+	e18 := new(big.Int).Exp(Bi(10), Bi(18), nil)
+	bCands := []*big.Int{Bi(0), Bi(1), Bi(7), Bi(8), Bi(9), Bi(1_000_000_000), Pow2(64), Bsub(Pow2(64), 1), Pow2(255), max256,
+		Bsub(max256, 1), new(big.Int).Div(new(big.Int).Mul(max256, Bi(4)), Bi(5)), new(big.Int).Div(new(big.Int).Mul(max256, Bi(8)), Bi(9))}
 	mgCands := []int64{-1, 0, 1, 2, 3, 4, 5, 100, 101, 30_000_000, 40_000_000, 1<<62 + 1, 1<<63 - 1}
 
 	for i := 0; i < n; i++ {
@@ -55,7 +57,7 @@ func TestDriverBasefee(t *testing.T) {
 		case 2:
 			b = r.BigBits(1 + r.Intn(256))
 		default:
-			b = new(big.Int).Add(bi(1_000_000_000), r.BigBits(30))
+			b = new(big.Int).Add(Bi(1_000_000_000), r.BigBits(30))
 		}
 		maxGas := mgCands[r.Intn(len(mgCands))]
 		if r.Chance(25) {
@@ -97,21 +99,21 @@ func TestDriverBasefee(t *testing.T) {
 		var minDec *big.Int
 		switch r.Intn(6) {
 		case 0:
-			minDec = bi(0)
+			minDec = Bi(0)
 		case 1:
 			minDec = new(big.Int).Add(new(big.Int).Mul(b, e18), r.BigBits(59)) // around b, fractional
 		case 2:
-			minDec = new(big.Int).Mul(badd(b, 1), e18)
+			minDec = new(big.Int).Mul(Badd(b, 1), e18)
 		case 3:
-			minDec = new(big.Int).Mul(bi(1_000_000_000), e18)
+			minDec = new(big.Int).Mul(Bi(1_000_000_000), e18)
 		case 4:
 			minDec = r.BigBits(1 + r.Intn(120))
 		default:
-			minDec = bsub(e18, 1) // 0.999.. truncates to 0
+			minDec = Bsub(e18, 1) // 0.999.. truncates to 0
 		}
 
 		if minDec.BitLen() > 315 { // LegacyDec holds at most 315 bits
-			minDec = bsub(pow2(315), 1)
+			minDec = Bsub(Pow2(315), 1)
 		}
 		ctx, _ := suite.CurrentContext.CacheContext()
 		params := feemarkettypes.Params{BaseFee: sdkmath.NewIntFromBigInt(b), MinGasPrice: sdkmath.LegacyNewDecFromBigIntWithPrec(minDec, 18)}
@@ -123,12 +125,12 @@ func TestDriverBasefee(t *testing.T) {
 		} else {
 			meter = storetypes.NewInfiniteGasMeter()
 		}
-		_ = catchPanic(func() { meter.ConsumeGas(used, "verif") })
+		_ = CatchPanic(func() { meter.ConsumeGas(used, "verif") })
 		require.Equal(t, used, meter.GasConsumedToLimit())
 		ctx = ctx.WithBlockGasMeter(meter)
 
 		var got sdkmath.Int
-		p := catchPanic(func() { got = k.CalculateBaseFee(ctx) })
+		p := CatchPanic(func() { got = k.CalculateBaseFee(ctx) })
 		obs, outcome := "", ""
 		if p != nil {
 			msg := fmt.Sprint(p)
@@ -141,10 +143,10 @@ func TestDriverBasefee(t *testing.T) {
 				obs, outcome = "ObsPanicOther", "PANIC_OTHER:"+msg
 			}
 		} else {
-			obs, outcome = "(ObsOk "+cqZ(got.BigInt())+")", "OK"
+			obs, outcome = "(ObsOk "+CqZ(got.BigInt())+")", "OK"
 		}
 		// second observation: the whole EndBlock (what block production runs), same inputs
-		p2 := catchPanic(func() {
+		p2 := CatchPanic(func() {
 			ectx, _ := ctx.CacheContext()
 			ectx = ectx.WithEventManager(sdk.NewEventManager())
 			k.EndBlock(ectx)
@@ -160,7 +162,7 @@ func TestDriverBasefee(t *testing.T) {
 		}
 
 		c := basefeeCase{B: b.String(), Used: used, MaxGas: maxGas, MinDec: minDec.String(), Outcome: outcome}
-		cases.Add(fmt.Sprintf("(%s, %s, %s, %s, %s)", cqZ(b), cqZu(used), cqZi(maxGas), cqZ(minDec), obs))
+		cases.Add(fmt.Sprintf("(%s, %s, %s, %s, %s)", CqZ(b), CqZu(used), CqZi(maxGas), CqZ(minDec), obs))
 		side.Count("outcome:" + strings.SplitN(outcome, ":", 2)[0])
 		switch {
 		case used == target:
